@@ -105,6 +105,8 @@ namespace occa {
         // Get argument
         arg.expr = tokenContext.parseExpression(smntContext,
                                                 parser);
+        // NULL if the expression could not be parsed (the error has been printed)
+        success &= !!arg.expr;
         if (!success) {
           tokenContext.pop();
           arg.clear();
